@@ -364,6 +364,24 @@ func c12Prop(st *CaseStats, fam int) func(t *rapid.T) {
 				nComplete++
 			case errors.Is(err, segment.ErrClosed):
 				nClosed++
+				if k%5 == 0 {
+					// the caller retries with the SAME Merger object and the same (emptied) destination
+					w.buf.Reset()
+					var n2 int64
+					err2 := safely("Merger.WriteTo(retry after cancellation)", func() error {
+						var e error
+						n2, e = mg.WriteTo(w, nil)
+						return e
+					})
+					inner++
+					if err2 != nil {
+						t.Fatalf("%s:\n  retrying the cancelled merge (closed at byte %d) with the same Merger: %v", desc, k, err2)
+					}
+					if n2 != int64(len(good)) || !bytes.Equal(w.buf.Bytes(), good) {
+						t.Fatalf("%s:\n  retrying the cancelled merge (closed at byte %d) with the same Merger and destination returned %d and wrote %d bytes; the complete file has %d bytes (first difference at %d)",
+							desc, k, n2, w.buf.Len(), len(good), firstDiff(w.buf.Bytes(), good))
+					}
+				}
 			case isPanic(err):
 				t.Fatalf("%s:\n  merge with the close channel closed at byte %d: %v", desc, k, err)
 			default:
